@@ -765,8 +765,11 @@ impl<'a> CompiledPredicate<'a> {
             }
             let frac: i64 = if sec_parts.len() > 1 {
                 let frac_str = sec_parts[1];
+                if sec_parts.len() > 2 || !frac_str.bytes().all(|b| b.is_ascii_digit()) {
+                    return None;
+                }
                 let padded = format!("{:0<6}", &frac_str[..frac_str.len().min(6)]);
-                padded.parse().unwrap_or(0)
+                padded.parse().ok()?
             } else {
                 0
             };
